@@ -104,7 +104,7 @@ def strategy():
             frags[draw(st.integers(0, nfrag - 1))]['nomd'] = draw(st.sampled_from(['r1', 'r2']))
         return {'ref': ref, 'r1_rev': r1_rev, 'frags': frags, 'dove_safe': draw(st.sampled_from([False, False, True])),
                 'prior': draw(st.sampled_from([None, None, True, False])),
-                'merge': draw(st.sampled_from([None, None, None, 1, 2, 3])),
+                'merge': draw(st.sampled_from([None, None, None, 1, 2, 3])), 'with_obs': draw(st.booleans()),
                 'perm_seeds': draw(st.lists(st.integers(0, 10 ** 6), min_size=6, max_size=6))}
     return case()
 
@@ -213,6 +213,10 @@ def vote(frag_calls):
     return cons, ties
 
 
+class ObsMismatch(Exception):
+    pass
+
+
 def run_molecule(case, order, double=False):
     from singlecellmultiomics.molecule import Molecule
     h = header(CONTIG)
@@ -242,6 +246,12 @@ def run_molecule(case, order, double=False):
         # an earlier query on the same molecule object, possibly in the other mode: answers may not depend on it
         m.get_consensus(dove_safe=case['prior'])
     got = m.get_consensus(dove_safe=case['dove_safe'])
+    if case.get('with_obs'):
+        # the entry point that also returns the observation vectors: its calls must be the same calls
+        full = m.get_consensus(dove_safe=case['dove_safe'], with_probs_and_obs=True)
+        calls = full[0] if isinstance(full, tuple) else full
+        if dict(calls) != dict(got):
+            raise ObsMismatch('%d positions differ between get_consensus() and get_consensus(with_probs_and_obs=True)' % len(set(dict(calls).items()) ^ set(dict(got).items())))
     return {k[1] if isinstance(k, tuple) else k: v for k, v in got.items()}, len(m)
 
 
@@ -263,6 +273,8 @@ def eval_case(case):
     base = list(range(n))
     try:
         got, nm = run_molecule(case, base)
+    except ObsMismatch as e:
+        return out.bad('calls-differ-with-probs-and-obs', str(e))
     except Exception as e:
         return out.bad('exception:%s' % type(e).__name__, repr(e))
     mode = 'dove_safe' if case['dove_safe'] else 'plain'
